@@ -143,16 +143,17 @@ func familyBlocks() []fam {
 		nat := []string{"ltrimstr(\"a\")", "rtrimstr(\"a\")", "ascii_downcase", "ascii_upcase", "tostring", "tojson", "tonumber", "length", "not", "keys", "sort", "reverse", "add", "explode", "ltrimstr(\"zzz\")", "select(startswith(\"a\"))", "select(test(\"a\"))", "strings", "ascii", "trim", "ltrimstr(1)", "splits(\"a\")", "first", "last", "min", "floor", "abs", "tostring | .", "map(.)", "to_entries", "@text", "@json", "utf8bytelength", "recurse", "env", "input", "empty", "error", "getpath([\"a\"])", "paths", "type", "values", "nulls", "arrays | .[0]", "objects | .a", "if . then . else . end", ". as $x | $x", "[.] | .[0]", "{a: .} | .a", "first(., .)", ". // 1", "(., .)"}
 		var ps []string
 		for i, n := range nat {
-			ps = append(ps, fmt.Sprintf("try path(%s) catch \"P\"", n), fmt.Sprintf("try [path(.a | %s)] catch \"P\"", n), fmt.Sprintf("try ((.a | %s) = 1) catch \"P\"", n))
+			// bare: the error CLASS is the observable (no handler: the message text is not needed)
+			ps = append(ps, fmt.Sprintf("path(%s)", n), fmt.Sprintf("[path(.a | %s)]", n), fmt.Sprintf("(.a | %s) = 1", n))
 			switch i % 4 {
 			case 0:
-				ps = append(ps, fmt.Sprintf("try ((.[]? | %s) |= 2) catch \"P\"", n), fmt.Sprintf(".a |= (%s)?", n))
+				ps = append(ps, fmt.Sprintf("(.[]? | %s) |= 2", n), fmt.Sprintf(".a |= (%s)?", n), fmt.Sprintf("[.[]? | path(%s)?]", n))
 			case 1:
-				ps = append(ps, fmt.Sprintf("try [paths(%s)] catch \"P\"", n), fmt.Sprintf("try del(.a | %s) catch \"P\"", n))
+				ps = append(ps, fmt.Sprintf("[paths(%s)]", n), fmt.Sprintf("del(.a | %s)", n), fmt.Sprintf("[(.a, .b) | try path(%s) catch \"P\"]", n))
 			case 2:
-				ps = append(ps, fmt.Sprintf("try [path(.. | %s)] catch \"P\"", n), fmt.Sprintf("try (.a |= (%s)) catch \"P\"", n))
+				ps = append(ps, fmt.Sprintf("[path(.. | %s)]", n), fmt.Sprintf(".a |= (%s)", n), fmt.Sprintf("[path(.a | %s)?, path(.b | %s)?]", n, n))
 			default:
-				ps = append(ps, fmt.Sprintf("try path(first(.a, .b) | %s) catch \"P\"", n), fmt.Sprintf("try to_entries(.a | %s) catch \"P\"", n))
+				ps = append(ps, fmt.Sprintf("path(first(.a, .b) | %s)", n), fmt.Sprintf("to_entries(.a | %s)", n), fmt.Sprintf("[(.a | %s) = 1]?", n))
 			}
 		}
 		fs = append(fs, fam{"natpath", ps, []any{
